@@ -3,6 +3,9 @@
 package c18
 
 import (
+	"sync"
+	"sync/atomic"
+
 	"bytes"
 	"crypto/sha1"
 	"encoding/json"
@@ -13,6 +16,7 @@ import (
 	"net"
 	"strings"
 	"time"
+	"verif/harness/yield"
 
 	"github.com/gorilla/websocket"
 
@@ -452,12 +456,98 @@ func Run(r *monitor.Run) {
 			r.Sample(c)
 		}
 	})
+	neighbours(r, b, cs)
 	textCases(r, b)
 	for _, e := range b.Log.Events() {
 		if e.Kind == "OnClosed" && e.Err != "" && strings.HasPrefix(e.Client, "ws-") && !strings.HasPrefix(e.Client, "ws-text") {
 			r.Count("connections_closed_with_error", 1)
 		}
 	}
+}
+
+// neighbours: the stream of one client is its own, whatever other connections of the listener do meanwhile. Streams
+// are replayed while other WebSocket connections are refused (CONNECT without client id and clean session 0, a first
+// packet that is no CONNECT, a connection that goes away mid-packet) and keep sending afterwards, with the read
+// loops of the broker held up for a moment after every packet they hand over (verif yield site read.enqueued).
+func neighbours(r *monitor.Run, b *broker.Broker, cs []Case) {
+	if !yield.Available {
+		return
+	}
+	yield.Enable(r.Seed, false)
+	var cnt int64
+	yield.Observe(func(site string) {
+		if site == "read.enqueued" && atomic.AddInt64(&cnt, 1)%3 == 0 {
+			time.Sleep(1500 * time.Microsecond)
+		}
+	})
+	defer yield.Observe(nil)
+	stop := make(chan struct{})
+	var wg sync.WaitGroup
+	var refused int64
+	for g := 0; g < 6; g++ {
+		wg.Add(1)
+		go func(g int) {
+			defer wg.Done()
+			for i := 0; ; i++ {
+				select {
+				case <-stop:
+					return
+				default:
+				}
+				ws, err := wire.DialWS(b.WSAddr)
+				if err != nil {
+					time.Sleep(time.Millisecond)
+					continue
+				}
+				var first []byte
+				switch (i + g) % 3 {
+				case 0: // refused: no client id, clean session 0
+					first, _ = mqttx.Encode(&mqttx.Packet{Type: mqttx.CONNECT, Level: 4, ProtoName: "MQTT", ClientID: "", CleanStart: false}, mqttx.V311)
+				case 1: // first packet is no CONNECT
+					first, _ = mqttx.Encode(&mqttx.Packet{Type: mqttx.PINGREQ}, mqttx.V311)
+				case 2: // half a CONNECT
+					full, _ := mqttx.Encode(&mqttx.Packet{Type: mqttx.CONNECT, Level: 4, ProtoName: "MQTT", ClientID: "half", CleanStart: true}, mqttx.V311)
+					first = full[:len(full)/2]
+				}
+				_ = ws.Conn.SetWriteDeadline(time.Now().Add(2 * time.Second))
+				_ = ws.Conn.WriteMessage(websocket.BinaryMessage, first)
+				ping, _ := mqttx.Encode(&mqttx.Packet{Type: mqttx.PINGREQ}, mqttx.V311)
+				for k := 0; k < 3; k++ {
+					if ws.Conn.WriteMessage(websocket.BinaryMessage, ping) != nil {
+						break
+					}
+				}
+				ws.Close()
+				atomic.AddInt64(&refused, 1)
+			}
+		}(g)
+	}
+	n := r.Pick(160, 1500)
+	if n > len(cs) {
+		n = len(cs)
+	}
+	step := len(cs) / n
+	r.Parallel(n, 12, func(i int) {
+		c := cs[i*step]
+		if c.MaxPkt != 0 {
+			return
+		}
+		sig, what, obs := runCase(b, &c, 500000+i)
+		r.Eval(1)
+		if sig == "harness" {
+			r.Inconclusive(what)
+			return
+		}
+		if sig != "" {
+			r.Violation(sig+":neighbours_refused", what, map[string]any{"case": c, "with_refused_neighbour_connections": true})
+		}
+		r.Count("streams_with_refused_neighbour_connections", 1)
+		r.Count("frames_from_broker", int64(obs["frames_from_broker"]))
+	})
+	close(stop)
+	wg.Wait()
+	r.Count("refused_neighbour_connections", atomic.LoadInt64(&refused))
+	r.Count("read_loops_held_after_a_packet", atomic.LoadInt64(&cnt)/3)
 }
 
 // Replay re-runs one case.
